@@ -29,11 +29,6 @@ fn now_ms() -> u64 {
     T0.get_or_init(Instant::now).elapsed().as_millis() as u64 + 1
 }
 
-/// Describes what this thread is about to execute (JSON of the case).
-pub fn set_ctx(ctx: String) {
-    MINE.with(|s| *s.ctx.lock().unwrap() = ctx);
-}
-
 /// Cheap form: the case itself, serialized only if the watchdog fires.
 pub fn set_case(json_codec: bool, steps: &[crate::sys::Step], fault_at: usize) {
     MINE.with(|s| *s.case.lock().unwrap() = Some((json_codec, steps.to_vec(), fault_at)));
